@@ -7,6 +7,7 @@ import (
 
 	"github.com/gordian-engine/gordian/tm/tmconsensus"
 	"github.com/gordian-engine/gordian/tm/tmengine/internal/tmmirror"
+	"github.com/gordian-engine/gordian/tm/tmengine/internal/tmstate"
 )
 
 // The Mirror follows the state of the active validators on the network,
@@ -30,12 +31,24 @@ func NewMirror(ctx context.Context, log *slog.Logger, opts ...Opt) (Mirror, erro
 	// Note that we never start the Engine we instantiate.
 	var e Engine
 
+	// Options that configure the state machine write into this value;
+	// it is discarded, since a standalone mirror has no state machine.
+	var smCfg tmstate.StateMachineConfig
+
 	var err error
 	for _, opt := range opts {
-		err = errors.Join(opt(&e, nil))
+		// Keep the errors of all options, not only the last one.
+		err = errors.Join(err, opt(&e, &smCfg))
 	}
 	if err != nil {
 		return nil, err
+	}
+
+	if e.genesis == nil {
+		return nil, errors.New("no genesis set (use tmengine.WithGenesis)")
+	}
+	if e.watchdog == nil {
+		return nil, errors.New("no watchdog set (use tmengine.WithWatchdog)")
 	}
 
 	cfg := e.mCfg
